@@ -7,6 +7,7 @@ import (
 	"sort"
 	"strings"
 	"time"
+	"verif/model"
 
 	"github.com/google/badwolf/bql/grammar"
 	"github.com/google/badwolf/bql/planner"
@@ -146,18 +147,55 @@ func Exec(st storage.Store, text string, chanSize, bulkSize int, cols []string) 
 }
 
 // NewStore builds a fresh memory store with the given graphs.
+// NewStore builds a memory store holding exactly the given graphs. The content is not reached by inserts alone
+// (the property speaks of any contents of the queried graphs, however they came about): every graph first gets,
+// next to its triples, a sibling of each triple (another object; the other kind or another instant of its
+// predicate), then the siblings are removed again, then triples that were never stored (further siblings) are
+// removed too, and the triples themselves are added a second time. What the graph holds afterwards is the given
+// set; what its indexes hold is what the driver's add and remove paths left there.
 func NewStore(graphs map[string][]*triple.Triple) storage.Store {
+	ctx := context.Background()
 	st := memory.NewStore()
 	for name, ts := range graphs {
-		g, err := st.NewGraph(context.Background(), name)
+		g, err := st.NewGraph(ctx, name)
 		if err != nil {
 			panic(err)
 		}
-		if len(ts) > 0 {
-			if err := g.AddTriples(context.Background(), ts); err != nil {
+		if len(ts) == 0 {
+			continue
+		}
+		stored := map[string]bool{}
+		for _, t := range ts {
+			stored[model.TripleKey(t)] = true
+		}
+		var noise, absent []*triple.Triple
+		add := func(dst *[]*triple.Triple, t *triple.Triple) {
+			if !stored[model.TripleKey(t)] {
+				*dst = append(*dst, t)
+			}
+		}
+		for _, t := range ts {
+			s, p, o := t.Subject(), t.Predicate(), t.Object()
+			add(&noise, model.T(s, p, model.ON(model.N("/churn", "x"))))
+			add(&absent, model.T(s, p, model.ON(model.N("/churn", "y"))))
+			add(&absent, model.T(model.N("/churn", "s"), p, o))
+			if ta, err := p.TimeAnchor(); err == nil {
+				add(&noise, model.T(s, model.PI(string(p.ID())), o))
+				add(&absent, model.T(s, model.PT(string(p.ID()), ta.Add(time.Hour)), o))
+			} else {
+				add(&noise, model.T(s, model.PT(string(p.ID()), model.T3), o))
+				add(&absent, model.T(s, model.PT(string(p.ID()), model.T3.Add(time.Hour)), o))
+			}
+		}
+		must := func(err error) {
+			if err != nil {
 				panic(err)
 			}
 		}
+		must(g.AddTriples(ctx, append(append([]*triple.Triple{}, ts...), noise...)))
+		must(g.RemoveTriples(ctx, noise))
+		must(g.RemoveTriples(ctx, absent))
+		must(g.AddTriples(ctx, ts))
 	}
 	return st
 }
